@@ -204,6 +204,7 @@ class Sym:
         """called by numpy's object-dtype ufunc protocol (np.sqrt / np.std)"""
         c = ctx()
         a = self.e if not z3.is_int(self.e) else z3.ToReal(self.e)
+        a = canon_poly(a)  # canonical sum-of-monomials: equal sums share one root
         c.assume(a >= 0, "sqrt argument >= 0")
         key = ("sqrt", a.get_id())
         if key in c.div_cache:
@@ -287,6 +288,12 @@ def _uf(name, *args):
     return _UFS[key](*args)
 
 
+def canon_poly(e):
+    """canonical sum-of-monomials form (z3 rewriter): polynomials that are equal as polynomials
+    become the identical AST"""
+    return z3.simplify(e, som=True, som_blowup=1000000, sort_sums=True)
+
+
 def _const_value(e):
     e = z3.simplify(e)
     if z3.is_int_value(e):
@@ -311,6 +318,8 @@ def _divide(n, d):
         n = z3.ToReal(n)
     if z3.is_int(d):
         d = z3.ToReal(d)
+    n = canon_poly(n)  # canonical form: syntactically different but equal polynomials share one quotient
+    d = canon_poly(d)
     key = (n.get_id(), d.get_id())
     if key in c.div_cache:
         return Sym(c.div_cache[key])
